@@ -358,14 +358,23 @@ func c13XHat(c *Ctx) {
 	}
 	fn := fname(f)
 	be := newBigEnv(f, paramNames(f, "x"))
+	sliceForm := false
 	for _, b := range f.Blocks {
 		ret, ok := b.Instrs[len(b.Instrs)-1].(*ssa.Return)
 		if !ok {
 			continue
 		}
 		got := be.valueAt(ret.Results[0], ret).String()
-		want := "add(frombytes(bytes(x)),frombytes(lit(0x80,0x0,0x0,0x0,0x0,0x0,0x0,0x0,0x0,0x0,0x0,0x0,0x0,0x0,0x0,0x0)))"
-		c.Check(got == want, "K-C13-xhat", fn, "x̄ = 2^127 + masked(x)", "", "keXHat returns "+got, ret.Pos())
+		two127 := "frombytes(lit(0x80,0x0,0x0,0x0,0x0,0x0,0x0,0x0,0x0,0x0,0x0,0x0,0x0,0x0,0x0,0x0))"
+		want := "add(frombytes(bytes(x))," + two127 + ")"
+		// the low 16 bytes taken by re-slicing (when there are at least 16) instead of zeroing the bytes before them
+		low16 := "slice(bytes(x),sub(len(bytes(x)),0x10),_)"
+		wantB1 := "add(frombytes(?phi(bytes(x)|" + low16 + "))," + two127 + ")"
+		wantB2 := "add(frombytes(?phi(" + low16 + "|bytes(x)))," + two127 + ")"
+		if got == wantB1 || got == wantB2 {
+			sliceForm = true
+		}
+		c.Check(got == want || got == wantB1 || got == wantB2, "K-C13-xhat", fn, "x̄ = 2^127 + masked(x)", "", "keXHat returns "+got, ret.Pos())
 	}
 	// masking: buf[i] = 0 for i < len(buf)-16 ; buf[len-16] &= 0x7f when len >= 16
 	zeroLoop, mask := false, false
@@ -394,6 +403,13 @@ func c13XHat(c *Ctx) {
 				conds := dominatingConds(be, st.Block())
 				if idx == "sub(len(bytes(x)),0x10)" && conds["ge(len(bytes(x)),0x10)=true"] {
 					mask = true
+				}
+				// byte 0 of x.Bytes()[len-16:], taken under the same `len >= 16` test
+				if sl, isSl := ia.X.(*ssa.Slice); isSl && sliceForm && sl.Low != nil && sl.High == nil {
+					k0, isK := constInt(ia.Index)
+					if isK && k0 == 0 && be.plain(sl.Low, st).String() == "sub(len(bytes(x)),0x10)" && be.plain(sl.X, st).String() == "bytes(x)" && conds["ge(len(bytes(x)),0x10)=true"] && sl.Block().Dominates(st.Block()) {
+						mask, zeroLoop = true, true
+					}
 				}
 			}
 		}
